@@ -1,1 +1,18 @@
 import Reamber.Props.C07
+#print axioms Reamber.O2J.header_layout_partial
+#print axioms Reamber.O2J.channels_tie
+#print axioms Reamber.O2J.isNoteChannel_eq
+#print axioms Reamber.O2J.slotsOf_eq_spec
+#print axioms Reamber.O2J.decodeI32_encode
+#print axioms Reamber.O2J.decodeI16_encode
+#print axioms Reamber.O2J.decodeF32_parts
+#print axioms Reamber.O2J.o2j_times
+#print axioms Reamber.O2J.readPkgs_errors
+#print axioms Reamber.O2J.hold_pairing
+#print axioms Reamber.O2J.decodePkg_notes
+#print axioms Reamber.O2J.posTime_eq_timeAt
+#print axioms Reamber.O2J.sweep_table
+#print axioms Reamber.O2J.sweep_offsets
+#print axioms Reamber.O2J.consumeAll_integ
+#print axioms Reamber.O2J.old_sweep_counterexample
+#print axioms Reamber.O2J.old_length_counterexample
